@@ -214,7 +214,14 @@ def encode_image(img: Dict[str, Any], rng=None) -> bytes:
     pp = predictor_parms(img)
     if pp is not None:
         data = predict_encode(data, pp["Predictor"], pp["Colors"], pp["BitsPerComponent"], pp["Columns"], rng)
-    return encode_chain(data, img.get("filters", []), rng)
+    payload = encode_chain(data, img.get("filters", []), rng)
+    k = img.get("a85_wrap")
+    if k and (img.get("filters") or [""])[0] == "A85" and payload.endswith(b"~>"):
+        # round 6: ASCII85 text broken into lines of k characters (white space is ignored by the decoder) — the
+        # encoded text may then contain `EI` followed by white space, which only the filter's own `~>` must end
+        body = payload[:-2]
+        payload = b"\n".join(body[i:i + k] for i in range(0, len(body), k)) + b"~>"
+    return payload
 
 
 def encode_chain(data: bytes, filters: List[str], rng=None) -> bytes:
